@@ -37,6 +37,8 @@ pub fn run(args: &[String]) -> bool {
         "vk-nr" => sc::vk_read_with_nr_pow2range_cols(n(1) as u8),
         "vk-short-fixed" => sc::verify_with_short_fixed_commitments(n(1) as usize),
         "batch-empty" => sc::batch_verify_empty(),
+        "params-k" => sc::params_read_custom_k(n(1) as u32),
+        "guard-batch" => sc::dualmsm_batch_verify_lengths(n(1) as usize, n(2) as usize),
         "zkir-into-bytes-biguint" => sc::zkir_into_bytes_biguint(n(1) as u32, n(2) as usize),
         "zkir-into-bytes-native" => sc::zkir_into_bytes_native_offcircuit(n(1) as usize),
         "zkir-mod-exp" => sc::zkir_mod_exp_offcircuit(n(1), n(2), n(3)),
